@@ -46,13 +46,14 @@ func VP_C03_GateLemma() {
 	zzvp.AnyOf(&ti)
 	zzvp.AnyOf(&to)
 	zzvp.Assume(zzvp.And(ext.PairId == pair.Id, pair.AssetIn == ai.Id, pair.AssetOut == ao.Id, ai.Id != ao.Id, ti.AssetID == ai.Id, to.AssetID == ao.Id))
-	np := vpQuickDecimalPairs
+	// quick: the first six pairs. Thorough adds {10^18, 10^6} and {10^18, 10^18}; the pairs {10^6, 10^18}, {1, 10^18} and
+	// {10^18, 1} stayed undecided at the 300 s cap in at least one run on the unchanged tree and are therefore outside the
+	// registered bound (only bounds that ran clean are registered)
+	idx := []int{0, 1, 2, 3, 4, 5}
 	if zzvp.Thorough() {
-		// the last two pairs ({1, 10^18} and {10^18, 1}) stayed undecided at the 300 s cap when the machine was loaded:
-		// they are outside the registered bound (only bounds that ran clean are registered)
-		np = len(vpDecimalPairs) - 2
+		idx = append(idx, 7, 8)
 	}
-	dp := vpDecimalPairs[zzvp.Choose(np)]
+	dp := vpDecimalPairs[idx[zzvp.Choose(len(idx))]]
 	dI, dO := dp[0], dp[1]
 	ai.Decimals, ao.Decimals = sdk.NewInt(dI), sdk.NewInt(dO)
 	// value ranges of this obligation (stated bound): prices up to 10^13 (micro-USD), amounts up to 10^24 base units, MinCr up to 1000
